@@ -342,3 +342,96 @@ Proof.
     apply N.ltb_lt in A. rewrite A. simpl. rewrite andb_true_r.
     apply N.ltb_lt. eapply spec_in_range; eauto.
 Qed.
+
+(** ---- first-appearance characterisation (wave 3) ----
+    What the harness's numpy reference computes for indices too large for a Coq literal: the value at
+    the raw position [p] of a first appearance is the sub seed of index "number of distinct values
+    before [p]".  Consequences: on a duplicate-free prefix the sub seed of index [i] is the raw draw
+    [i]; at the first repeated raw draw [d] the raw draw is NOT the sub seed of [d] (a shortcut that
+    returns raw draws aliases two indices exactly there). *)
+Lemma dedup_In s x : In x (dedup s) -> In x s.
+Proof. unfold dedup. intros H. apply update_In in H. destruct H as [[]|H]; exact H. Qed.
+
+Lemma dedup_snoc_fresh l v : ~ In v l -> dedup (l ++ [v]) = dedup l ++ [v].
+Proof.
+  intros Hn. unfold dedup. rewrite update_app. fold (dedup l).
+  unfold update. simpl. unfold add. destruct (mem v (dedup l)) eqn:E; [|reflexivity].
+  apply mem_In in E. apply dedup_In in E. contradiction.
+Qed.
+
+Lemma firstn_S_nth {A} (s : list A) : forall p v, nth_error s p = Some v -> firstn (S p) s = firstn p s ++ [v].
+Proof.
+  induction s as [|a s IH]; intros [|p] v H; simpl in *; try discriminate.
+  - inversion H; reflexivity.
+  - f_equal. apply IH. exact H.
+Qed.
+
+Lemma nth_error_firstn_lt {A} (s : list A) : forall d p, p < d -> nth_error (firstn d s) p = nth_error s p.
+Proof. induction s as [|a s IH]; intros [|d] [|p] H; simpl; try reflexivity; try lia. apply IH. lia. Qed.
+
+Theorem spec_first_appearance s p v :
+  nth_error s p = Some v -> ~ In v (firstn p s) -> spec s (length (dedup (firstn p s))) = Some v.
+Proof.
+  intros Hp Hn. unfold spec.
+  destruct (dedup_prefix s (S p)) as [t Ht]. rewrite Ht.
+  rewrite (firstn_S_nth _ _ _ Hp). rewrite dedup_snoc_fresh by exact Hn.
+  rewrite <- app_assoc. rewrite nth_error_app2 by lia. rewrite Nat.sub_diag. reflexivity.
+Qed.
+
+Lemma dedup_NoDup_id l : NoDup l -> dedup l = l.
+Proof.
+  induction l as [|x l IH] using rev_ind; intros H; [reflexivity|].
+  apply NoDup_remove in H. rewrite app_nil_r in H. destruct H as [Hl Hx].
+  rewrite dedup_snoc_fresh by exact Hx. now rewrite IH.
+Qed.
+
+Theorem spec_nodup_prefix s i : NoDup (firstn (S i) s) -> spec s i = nth_error s i.
+Proof.
+  intros Hnd. destruct (nth_error s i) as [v|] eqn:E.
+  - assert (Hi : i < length s) by (apply nth_error_Some; congruence).
+    rewrite (firstn_S_nth _ _ _ E) in Hnd.
+    apply NoDup_remove in Hnd. rewrite app_nil_r in Hnd. destruct Hnd as [Hl Hx].
+    pose proof (spec_first_appearance s i v E Hx) as H.
+    rewrite (dedup_NoDup_id _ Hl) in H. rewrite firstn_length_le in H by lia. exact H.
+  - apply nth_error_None in E. rewrite firstn_all2 in Hnd by lia.
+    unfold spec. rewrite (dedup_NoDup_id _ Hnd). now apply nth_error_None.
+Qed.
+
+Lemma NoDup_firstn {A} (l : list A) n : NoDup l -> NoDup (firstn n l).
+Proof.
+  revert l; induction n as [|n IH]; intros [|a l] H; simpl; try constructor.
+  - inversion H; subst. intros Hin. apply H2. rewrite <- (firstn_skipn n l). apply in_or_app. now left.
+  - inversion H; subst. now apply IH.
+Qed.
+
+Theorem raw_draw_wrong_at_collision s d x :
+  NoDup (firstn d s) -> nth_error s d = Some x -> In x (firstn d s) -> spec s d <> Some x.
+Proof.
+  intros Hnd Hd Hin Hs.
+  apply In_nth_error in Hin. destruct Hin as [p Hp].
+  assert (Hpd : p < d).
+  { assert (H : p < length (firstn d s)) by (apply nth_error_Some; congruence). rewrite firstn_length in H. lia. }
+  rewrite nth_error_firstn_lt in Hp by exact Hpd.
+  assert (Hsp : spec s p = Some x).
+  { rewrite <- Hp. apply spec_nodup_prefix.
+    replace (firstn (S p) s) with (firstn (S p) (firstn d s)).
+    - now apply NoDup_firstn.
+    - rewrite firstn_firstn. f_equal. lia. }
+  pose proof (spec_injective s p d x Hsp Hs). lia.
+Qed.
+
+(** the reference answers accepted by [ref_ok] are the [spec] values *)
+Lemma ref_ok_sound s high : forall reqs r,
+  ref_ok s high reqs r = true ->
+  Forall2 (fun (rq : nat * bool) o => match o with
+                                      | None => (high <= N.of_nat (fst rq))%N
+                                      | Some v => (N.of_nat (fst rq) < high)%N /\ spec s (fst rq) = Some v
+                                      end) reqs r.
+Proof.
+  induction reqs as [|[idx uc] q IH]; intros [|o r] H; simpl in H; try discriminate; [constructor|].
+  apply andb_true_iff in H. destruct H as [H1 H2]. constructor; [|now apply IH].
+  simpl. destruct o as [v|].
+  - apply andb_true_iff in H1. destruct H1 as [H1 H3]. apply N.ltb_lt in H1.
+    destruct (spec s idx) as [w|]; [|discriminate]. apply N.eqb_eq in H3. subst. tauto.
+  - now apply N.leb_le in H1.
+Qed.
